@@ -19,7 +19,7 @@ CLAIMS = {
     'C18': dict(
         text="Static decision of the whole property: linkage of every header definition (clang AST), exactly-one external provider for "
              "every declared symbol (IR of the Makefile's unit list), and exhaustive compile/link witnesses over the finite configuration "
-             "space in the property's quantifier (each header alone, each ordered pair, all, twice; 1 and 2 client units; libcstl.a and "
+             "space in the property's quantifier (each header alone, each ordered pair, all, twice -- each witness also names one function of every header it includes, so a header silently skipped in a combination is noticed; 1 and 2 client units; libcstl.a and "
              "libcstl.so; also a client built without NDEBUG against the release library). The compiler front end and the linker are the analysers; nothing is executed.",
         technique="AST linkage rule + symbol-provision rule over IR + exhaustive compile/link witnesses"),
     'C20': dict(
@@ -37,7 +37,7 @@ CLAIMS['C09'] = dict(
          "committed only in the success region of realloc, which is handed the current block; (V3) at() returns only under i < count "
          "and aborts only under count <= i; (V4) resize changes count / runs xtors only after re-checking sz <= cap, aborting "
          "otherwise, and reserve grows only when sz > cap; (V7) the scratch slot used by sort/reverse is element index cap and the "
-         "setter allocates (request+1)*size; (V8) swap exchanges every member of the two vectors, the constructor/destructor description included; (V9) giving up the storage also sets the capacity to 0; (V10) resize steps the count (constructs / destroys) only in the direction of the request, and sets it directly only where no registered constructor / destructor is skipped (path-sensitive with a store/load model of the count); (V11) no element pointer read before a reallocation is used after it; (V12) sort/search/find/reverse hand the raw-array routines base, element COUNT and element size. Constructor/destructor exactly-once counts and byte preservation beyond realloc's "
+         "setter allocates (request+1)*size; (V8) swap exchanges every member of the two vectors, the constructor/destructor description included; (V9) giving up the storage also sets the capacity to 0; (V10) resize steps the count (constructs / destroys) only in the direction of the request, and sets it directly only where no registered constructor / destructor is skipped (path-sensitive with a store/load model of the count); (V11) no element pointer read before a reallocation is used after it; (V12) sort/search/find/reverse hand the raw-array routines base, element COUNT and element size; (V13) a capacity set to 0 goes with an element count of 0 on that path (size <= capacity); V2/V7 are judged with private helpers inlined (allocation and commit may be split); (V14) every store / effectful call made by the assertion-enabled build is also made by the NDEBUG build (no work inside assert()). Constructor/destructor exactly-once counts and byte preservation beyond realloc's "
          "contract are NOT decided.",
     technique="no-wrap obligations by dominating-facts entailment over inlined LLVM IR; allocator-result discipline; structural agreement rules")
 CLAIMS['C10'] = dict(
@@ -46,7 +46,7 @@ CLAIMS['C10'] = dict(
          "(T2) every function that resizes the underlying vector asks for n+1 elements and writes the NUL at element n through the "
          "re-read base pointer on every path, and nothing else changes the count; (T3) positional operations touch the buffer only "
          "under the documented bound (pos <= size for insert, pos < size otherwise) and abort on the other edge; (T4) str() never "
-         "returns NULL; (T5) the wide instantiation scales every byte count handed to memcpy/memmove/memset by the character size and uses memset only to fill with 0; (T6) resize's NUL fill of the grown part starts at the old size (never at the old capacity); (T7) swap exchanges every member; (T8) no character pointer read before a reallocation of the same string's storage is used after it; (T9) compare is not bounded by one operand's length alone. Equality with a reference string and agreement of find/compare with the C library are NOT decided.",
+         "returns NULL; (T5) the wide instantiation scales every byte count handed to memcpy/memmove/memset by the character size and uses memset only to fill with 0; (T6) resize's NUL fill of the grown part starts at the old size (never at the old capacity); (T7) swap exchanges every member; (T8) no character pointer read before a reallocation of the same string's storage is used after it; (T9) compare is not bounded by one operand's length alone; (T10) every store / effectful call made by the assertion-enabled build is also made by the NDEBUG build (no work inside assert()). Equality with a reference string and agreement of find/compare with the C library are NOT decided.",
     technique="no-wrap obligations by dominating-facts entailment over inlined LLVM IR; dominance / post-dominance rules; both template instantiations")
 
 CLAIMS['C14'] = dict(
@@ -56,7 +56,7 @@ CLAIMS['C14'] = dict(
          "stored only under beg <= end and a wrap-free off + end <= nm, rejected ranges abort; (A4) at() returns only under i < len, "
          "aborts only under len <= i, and addresses element off + i; (A5) release hands back only an external, uniquely referenced "
          "buffer -- the descriptor's own buffer pointer, never a pointer into it -- and resets the object there, otherwise reports NULL and changes nothing; (A6) array code never frees/allocates "
-         "directly and shares exactly when the two objects differ. (A7) alloc stores exactly the buffer address by which release recognises a library-owned buffer. History-level 'released exactly once' rests on C05.",
+         "directly and shares exactly when the two objects differ. (A7) alloc stores exactly the buffer address by which release recognises a library-owned buffer; (A8) every store / effectful call made by the assertion-enabled build is also made by the NDEBUG build (no work inside assert()). History-level 'released exactly once' rests on C05.",
     technique="path-sensitive typestate with a store/load model + no-wrap obligations + dominating facts over inlined LLVM IR")
 
 CLAIMS['C16'] = dict(
@@ -65,7 +65,7 @@ CLAIMS['C16'] = dict(
          "every public entry point that allocates (whole-library inlined), on every path on which an allocation is known to have "
          "failed nothing is stored into the container afterwards (path-sensitive, with a store/load model so a re-read capacity is "
          "the unchanged one); (F3) cstl_map_insert returns -1 on that path; (F5) every block allocated on a path is committed, "
-         "returned or freed before the return (half-built bookkeeping block); (F6) hash resize touches nothing of the table before the bucket allocation it depends on. Whole-script leak audits and multi-call fault "
+         "returned or freed before the return (half-built bookkeeping block); (F6) hash resize touches nothing of the table before the bucket allocation it depends on; (F7) on a path on which an allocation failed nothing is read or written through its NULL result. Whole-script leak audits and multi-call fault "
          "sequences are NOT explored.",
     technique="dominating facts per allocation site + path-sensitive typestate with store/load model over inlined LLVM IR")
 
@@ -81,9 +81,8 @@ CLAIMS['C04'] = dict(
 CLAIMS['C19'] = dict(
     text="Decides structural necessary conditions on every path of the code as written: (S1) the load factor divides by the effective "
          "bucket count; (S2) resize's skip-the-update decision compares the request with the effective (pending-aware) geometry or "
-         "forces the rehash first; (S3) insert/find/erase cannot reach the completer, call the sweep with a constant quota q >= 1 with "
-         "q + directly cleaned buckets <= 3, the sweep's cleaner calls sit in the quota loop, and no other bucket-array walk is "
-         "reachable; (S4) completion adopts count and function before clearing the pending marker, resize records the requested "
+         "forces the rehash first; (S3) insert/find/erase cannot reach the completer nor any other bucket-array walk, and with their private helpers inlined "
+         "(so the sweep may be one function with a quota, several specialised ones, or open-coded) every cleaner call runs at most once or under a quota that starts from a constant and is stepped once per cleaning: at most three buckets cleaned per operation, at least one of them under the sweep index; (S4) completion adopts count and function before clearing the pending marker, resize records the requested "
          "count / requested-else-existing-else-default function (each alternative judged under the facts of its own selection edge; the existing function must be read after the forced rehash) and restarts the sweep; (S5) exactly one hash call per lookup when "
          "nothing is pending (path-sensitive). Histories of requests and the sweep's arithmetic are NOT explored.",
     technique="role discovery by effect + call-graph reachability + pending-aware value classification + typestate call counting over LLVM IR")
@@ -95,7 +94,7 @@ CLAIMS['C03'] = dict(
          "otherwise (path-sensitive, inlined); (L3) the cleaner relocates each node by its own key with the pending geometry, detaches "
          "the chain first and marks the bucket clean on every dirty path (path-sensitive: an empty dirty bucket too); (L4) the element count moves exactly with chain insertions "
          "and splices; (L5) resize forces the old rehash, then flips the clean bit, then records the pending geometry on every path (a flip is never left without a pending rehash), adopts a geometry without sweeping only on the very first resize, the added buckets are exactly [count read after the forced rehash, requested count), new buckets "
-         "empty and clean; (L6) find calls the caller's visit only under key equality and records a candidate as its result only once the visit accepted it (or none was given); (L7) the bucket-array byte size cannot wrap; (L8) the bucket array is only grown, or cut to the (effective) bucket count after the forced rehash; (L9) swap exchanges every member. "
+         "empty and clean; (L6) find calls the caller's visit only under key equality and records a candidate as its result only once the visit accepted it (or none was given); (L7) the bucket-array byte size cannot wrap; (L8) the bucket array is only grown, or cut to the (effective) bucket count after the forced rehash; (L9) swap exchanges every member (an exchange skipped on some path only where the members are known equal); (L10) the sweep index is advanced only past a bucket that was just cleaned or is known to carry the table's clean stamp; (L11) a key is never narrowed; (L12) every store / effectful call made by the assertion-enabled build is also made by the NDEBUG build (no work inside assert()). "
          "That the sweep's arithmetic visits every bucket, chain contents over histories, are NOT decided.",
     technique="role discovery by effect + path-sensitive typestate over inlined LLVM IR + dominance/ordering rules + no-wrap obligations")
 
@@ -104,7 +103,7 @@ CLAIMS['C12'] = dict(
          "re-anchors both lists to their own sentinel in the empty and the non-empty case, reading the links after the bitwise swap; "
          "(D3) concat splices only distinct lists and only a source known to be non-empty, adds the size once and re-initialises the source; (D4) foreach binds next for FWD "
          "and prev for REV, never touches a node after its visit, and propagates the first non-zero result (path-sensitive); (D5) "
-         "size is adjusted exactly once per primitive; (D6) reverse links its two cursors directly only under the adjacency test; (D7) swap exchanges every member; (D8) push_front / push_back / insert pass the anchor matching the direction in which the link primitive links; (D9) a visiting walk ends at the head sentinel, never at an element; (D10) callbacks get the context supplied with them; (D11) size - k values (pair counts, loop bounds) are computed only where size >= k is known. The link correctness of reverse / sort / merge and equality with a reference "
+         "size is adjusted exactly once per primitive; (D6) reverse links its two cursors directly only under the adjacency test; (D7) swap exchanges every member; (D8) push_front / push_back / insert pass the anchor matching the direction in which the link primitive links; (D9) a visiting walk ends at the head sentinel, never at an element; (D10) callbacks get the context supplied with them; (D11) size - k values (pair counts, loop bounds) are computed only where size >= k is known; (D8, delegation) an entry point that delegates to insert-after-element does not pass an untested result of a function documented to return NULL; (D12) every store / effectful call made by the assertion-enabled build is also made by the NDEBUG build (no work inside assert()). The link correctness of reverse / sort / merge and equality with a reference "
          "sequence are NOT decided.",
     technique="documentation-contract rule (AST + IR return values) + dominating facts + typestate over LLVM IR")
 CLAIMS['C13'] = dict(
@@ -112,7 +111,7 @@ CLAIMS['C13'] = dict(
          "function that writes a node link also maintains the same list's tail pointer (or re-initialises that list); (N3) swap "
          "re-anchors an empty list's tail to its own head link, reading the count after the swap; (N4) foreach reads the successor "
          "before the visit and propagates the first non-zero result; (N5) count is adjusted exactly once per primitive, concat adds "
-         "once and re-initialises the source; (N6) the tail is only ever set to the head link, another tail, or a node known to exist; (N7) swap exchanges every member; (N8) push_front / push_back / insert_after pass the anchor after which the primitive links; (N9) callbacks get the context supplied with them; (N10) the unlink primitive re-points the tail at the predecessor when it removes the last node; concat re-points the destination tail only for a non-empty source. That reverse / sort / merge produce the right order is NOT decided.",
+         "once and re-initialises the source; (N6) the tail is only ever set to the head link, another tail, or a node known to exist; (N7) swap exchanges every member; (N8) push_front / push_back / insert_after pass the anchor after which the primitive links; (N9) callbacks get the context supplied with them; (N10) the unlink primitive re-points the tail at the predecessor when it removes the last node; concat re-points the destination tail only for a non-empty source; (N8, delegation) push_back/push_front delegating to insert_after do not pass an untested result of front()/back() (NULL for an empty list); (N11) every store / effectful call made by the assertion-enabled build is also made by the NDEBUG build (no work inside assert()). That reverse / sort / merge produce the right order is NOT decided.",
     technique="documentation-contract rule (AST + IR return values) + field-effect rule + dominating facts + typestate over LLVM IR")
 
 CLAIMS['C01'] = dict(
@@ -122,7 +121,7 @@ CLAIMS['C01'] = dict(
          "foreach binds (left,right) for FWD and (right,left) for REV and returns the walker's result, the adapter forwards "
          "element/order/result unchanged; (W3) size is written only as 0 or size+/-1, exactly once per insert/unlink path; (W4) insert "
          "and find agree on comparison argument order and descent direction; (W5) erase (lookup and unlink routines recognised by effect; path-sensitive) unlinks exactly the node the lookup returned, exactly once and only "
-         "when non-NULL, and returns it, NULL otherwise; (W6) a non-NULL find result is the node that compared equal; (W7) insert links the new node only into a slot just read as NULL; (W8) swap exchanges every member of the tree objects (one block copy or member by member); (W9) comparison / visit calls get the context stored beside the function; (W4, slot choice) every child slot insert links into or descends through is chosen under the matching sign of a comparison; (W10) red-black erase leaves the node at which its repair stops black on every path and (W11) red-black insert ends by colouring the root black (a red root makes the next insert dereference a missing grandparent: the tree can no longer hold what is inserted). That relinking in the two-child "
+         "when non-NULL, and returns it, NULL otherwise; (W6) a non-NULL find result is the node that compared equal; (W7) insert links the new node only into a slot just read as NULL; (W8) swap exchanges every member of the tree objects (one block copy or member by member); (W9) comparison / visit calls get the context stored beside the function; (W4, slot choice) every child slot insert links into or descends through is chosen under the matching sign of a comparison; (W10) red-black erase leaves the node at which its repair stops black on every path and (W11) red-black insert ends by colouring the root black (a red root makes the next insert dereference a missing grandparent: the tree can no longer hold what is inserted); (W12) every store / effectful call made by the assertion-enabled build is also made by the NDEBUG build (no work inside assert()). That relinking in the two-child "
          "erase case and in rotations preserves the multiset and the order is NOT decided (heap-shape reasoning).",
     technique="path-sensitive typestate over the recursive walker + sibling agreement + dominating facts over LLVM IR")
 CLAIMS['C15'] = dict(
@@ -140,13 +139,13 @@ CLAIMS['C08'] = dict(
          "code (path-sensitive typestate over call events); (P2) erase-by-key (lookup recognised by effect; path-sensitive) erases only a found entry, exactly once, returns 0 / -1 accordingly "
          "and reports a detached iterator only through a non-NULL out-parameter, erase-by-iterator unlinks then frees that same node once; (P3) stored key/value pointers are "
          "written only at node creation; (P4) the insert hint is the parent reported by the find on the same key with no mutation in "
-         "between; (P5) clear = C15's map instance (the callback runs on every path on which one was supplied); (P6) callbacks get the context supplied with them.",
+         "between; (P5) clear = C15's map instance (the callback runs on every path on which one was supplied); (P6) callbacks get the context supplied with them; (P7) every store / effectful call made by the assertion-enabled build is also made by the NDEBUG build (no work inside assert()).",
     technique="path-sensitive typestate over call events + field-effect rule + dominance over LLVM IR")
 CLAIMS['C11'] = dict(
     text="Thin by design: decides only clauses with a type- or shape-level necessary condition: (X1) no size_t count/index is "
          "narrowed in the raw-array routines; (X2) for every selector value - each enumerator and values outside the enumeration - exactly one sort of the caller's array is reached, "
          "a re-dispatch landing on a directly handled selector (path-sensitive, independent of switch / if-chain form); (X3) the sift-down reads computed child elements only under child < count; "
-         "(X4) linear find returns the ascending loop's index under cmp == 0, else -1; (X5) the quicksort pivot index is proven below count per alternative, or refuted by folding the index expression over rand()'s range (no verdict otherwise); (X6) every comparison call gets the context supplied with the function. 'Sorted permutation', 'search finds iff "
+         "(X4) linear find returns the ascending loop's index under cmp == 0, else -1; (X5) the quicksort pivot index is proven below count per alternative, or refuted by folding the index expression over rand()'s range (no verdict otherwise); (X6) every comparison call gets the context supplied with the function; (X7) every store / effectful call made by the assertion-enabled build is also made by the NDEBUG build (no work inside assert()). (X8) a binary-search bound stepped down by one is either compared as a signed value or stepped only where known non-zero. 'Sorted permutation', 'search finds iff "
          "present' and partition bounds are NOT decided.",
     technique="taint + truncation rule, switch coverage, dominating facts over LLVM IR; enumerators from the AST")
 
@@ -156,7 +155,7 @@ CLAIMS['C05'] = dict(
          "its owner count equals installs minus clears of non-NULL pointers to it in owner objects, and of its reference count in "
          "all objects, allocation contributing (1,1) -- any imbalance is, by counting, an early free or a leak in some history; (M2) "
          "destroy is gated on the hard decrement's own result == 1, the bookkeeping free on the soft decrement's; (M3) unique "
-         "pointer reset/alloc/release/swap ordering; (M4) malloc/free only in the four lifetime functions. History-level claims that "
+         "pointer reset/alloc/release/swap ordering; (M4) malloc/free only in the four lifetime functions; (M3, swap) an exchange of the clear pair skipped on some path only where the members are known equal; (M5) every store / effectful call made by the assertion-enabled build is also made by the NDEBUG build (no work inside assert()). History-level claims that "
          "also need correct client usage, and the values of get/unique, are NOT decided.",
     technique="path-sensitive typestate with store/load model (effect balance per path) + dominating facts over inlined LLVM IR")
 CLAIMS['C06'] = dict(
